@@ -202,7 +202,13 @@ theorem onTimeout_noCommit (env : Env) (m : Machine) (s : Step) (h : Height) (r 
 theorem processTimeout_callOK (env : Env) (m : Machine) (s : Step) (h : Height) (r : Round) :
     CallOK (m.processTimeout env s h r) := by
   unfold Machine.processTimeout
-  exact loop_callOK env _ _ none (onTimeout_noCommit env m s h r)
+  have hn := onTimeout_noCommit env m s h r
+  generalize m.onTimeout env s h r = res at hn
+  obtain ⟨m', acts⟩ := res
+  simp only
+  split
+  · exact callOK_noCommit _ _ (by intro q hq; simp at hq)
+  · exact loop_callOK env _ _ none hn
 
 /-- a call into a height that is not started (after a commit) returns nothing and leaves it so -/
 theorem processPrecommit_unstarted (env : Env) (m : Machine) (v : Vote) (h : m.isHeightStarted = false) :
